@@ -77,10 +77,44 @@ def copy_of_param(b, op, D, param, depth=0):
     return False
 
 
-def ordered_sites(b, names, trait):
+def read_wrappers(facts, de):
+    """calls in `de` of a crate function that does nothing but read one value with the trait's method and hand it back
+    (`fn read<T>(r, compress) -> Result<T, _> { T::deserialize_with_mode(r, compress, Validate::No) }`):
+    id(call terminator) -> {self_ty, mode_arg (index of the call argument that becomes the read's mode)}."""
+    out = {}
+    for i, t in de.calls():
+        if de.blocks[i]["cleanup"]:
+            continue
+        for c in facts.call_targets(t, None):
+            w = facts.bodies[c]
+            if w.kind == "Closure":
+                continue
+            inner = [(j, x) for j, x in w.calls() if _name(x) in READ and x.get("callee_trait") == DE and not w.blocks[j]["cleanup"]]
+            if len(inner) != 1 or len(list(w.calls())) > 3:
+                continue
+            j, x = inner[0]
+            Dw = defs_of(w)
+            # the value read is what the wrapper returns
+            l, ok = x["dst"]["l"], x["dst"]["l"] == 0 and not x["dst"]["p"]
+            if not ok:
+                ok = any(kind == "st" and st["rv"]["k"] in ("use",) and st["rv"]["ops"][0].get("pl", {}).get("l") == l
+                         for kind, _, st in Dw.get(0, []))
+            if not ok or _name(x) != "deserialize_with_mode" or len(x["args"]) < 3:
+                continue
+            mode = None
+            for k in range(1, w.arg_count + 1):
+                if copy_of_param(w, x["args"][1], Dw, k):
+                    mode = k - 1
+            sub = dict((a, b_) for a, b_ in (t.get("subst") or []) if isinstance(a, str))
+            out[id(t)] = dict(self_ty=sub.get(x.get("self_ty") or "", None), mode_arg=mode)
+    return out
+
+
+def ordered_sites(b, names, trait, extra=None):
     """call sites (block, term) of the trait's methods in reverse postorder; second value False when two of them are
-    not ordered by dominance (a conditional write / read)."""
-    sites = [(i, t) for i, t in b.calls() if _name(t) in names and t.get("callee_trait") == trait and not b.blocks[i]["cleanup"]]
+    not ordered by dominance (a conditional write / read). `extra`: ids of call terminators that count as well."""
+    sites = [(i, t) for i, t in b.calls() if not b.blocks[i]["cleanup"] and
+             ((_name(t) in names and t.get("callee_trait") == trait) or (extra and id(t) in extra))]
     succ = b.succ()
     order = []
     seen = set()
@@ -129,13 +163,19 @@ def uses_of(b, local):
     return out
 
 
-def landing_field(b, local, adt, field_names):
-    """(field name, tried, wrapped) of the struct aggregate operand the value in `local` is moved into."""
+def landing_field(b, local, adt, field_names, ctor=None):
+    """(field name, tried, wrapped) of the struct aggregate operand the value in `local` is moved into. `ctor` =
+    (call terminator, constructor body): an argument of that call lands where the constructor's parameter lands."""
     seen = {local}
     work = [(local, False, False)]
     while work:
         l, tried, wrapped = work.pop()
         for kind, i, x, j in uses_of(b, l):
+            if kind == "call" and ctor is not None and x is ctor[0]:
+                fld, t2, w2 = landing_field(ctor[1], j + 1, adt, field_names)
+                if fld is not None:
+                    return fld, tried or t2, wrapped or w2
+                continue
             if kind == "call":
                 nm = _name(x)
                 if nm == "branch" and j == 0:
@@ -234,16 +274,27 @@ def check_family(facts, adt):
             Z.append(tr[0] if tr else None)
     # (ii) reads
     Dd = defs_of(de)
-    rsites, rlin = ordered_sites(de, READ, DE)
+    wrappers = read_wrappers(facts, de)
+    rsites, rlin = ordered_sites(de, READ, DE, extra=wrappers)
     aggs = [st for blk in de.blocks if not blk["cleanup"] for st in blk["stmts"]
             if st["rv"].get("k") == "agg" and st["rv"].get("adt") == adt and st["rv"].get("ak") == "adt"]
+    agg_body, ctor = de, None
+    if not aggs:
+        # the struct may be assembled by a constructor function of the crate
+        for i, t in de.calls():
+            for c in facts.call_targets(t, None):
+                cb = facts.bodies[c]
+                ca = [st for blk in cb.blocks if not blk["cleanup"] for st in blk["stmts"]
+                      if st["rv"].get("k") == "agg" and st["rv"].get("adt") == adt and st["rv"].get("ak") == "adt"]
+                if cb.kind != "Closure" and len(ca) == 1 and ctor is None:
+                    aggs, agg_body, ctor = ca, cb, (t, cb)
     if len(aggs) != 1 or not rlin:
         return [(False, "read-shape", "deserialize_with_mode of %s: %s" % (adt, "reads are not in one straight line" if not rlin else
                  "%d struct aggregates build the result (expected one)" % len(aggs)))]
     R, untried, wrapped_f = [], [], set()
     read_roots = {}
     for k, (i, t) in enumerate(rsites):
-        fld, tried, wrapped = landing_field(de, t["dst"]["l"], adt, fnames)
+        fld, tried, wrapped = landing_field(de, t["dst"]["l"], adt, fnames, ctor)
         R.append(fld)
         read_roots[t["dst"]["l"]] = k
         if not tried:
@@ -257,8 +308,12 @@ def check_family(facts, adt):
     for (i, t), fld in zip(rsites, R):
         if fld is None or fld in wrapped_f:
             continue
-        if (t.get("self_ty") or "") != ftypes.get(fld):
-            bad_ty.append((fld, t.get("self_ty"), ftypes.get(fld)))
+        w = wrappers.get(id(t))
+        sty = t.get("self_ty") if w is None else w["self_ty"]
+        if sty is None and w is not None:
+            continue        # a generic read helper whose type argument is inferred from the field it fills
+        if (sty or "") != ftypes.get(fld):
+            bad_ty.append((fld, sty, ftypes.get(fld)))
     res.append((not bad_ty, "types", "every read has the type of the field it fills" if not bad_ty else
                 "read for field %s has type %s but the field is %s" % bad_ty[0]))
     okz = sorted(x or "?" for x in Z) == sorted(W)
@@ -274,6 +329,11 @@ def check_family(facts, adt):
             if _name(t) != "serialized_size" or len(t["args"]) < 2 or not copy_of_param(size, t["args"][1], Dz, 2):
                 bad_mode.append("a size is taken with %s" % (_name(t) if _name(t) != "serialized_size" else "another mode than the caller's"))
     for (i, t), fld in zip(rsites, R):
+        w = wrappers.get(id(t))
+        if w is not None:
+            if w["mode_arg"] is None or w["mode_arg"] >= len(t["args"]) or not copy_of_param(de, t["args"][w["mode_arg"]], Dd, 2):
+                bad_mode.append("%s is read with another mode than the caller's" % fld)
+            continue
         if _name(t) != "deserialize_with_mode" or len(t["args"]) < 3 or not copy_of_param(de, t["args"][1], Dd, 2):
             bad_mode.append("%s is read with %s" % (fld, _name(t) if _name(t) != "deserialize_with_mode" else "another mode than the caller's"))
     res.append((not bad_mode, "modes", "every field is written, sized and read in the caller's compression mode" if not bad_mode else
@@ -305,7 +365,7 @@ def check_family(facts, adt):
             reach_of = {}
             for l, k in read_roots.items():
                 reach_of[k] = {st[0] for st in graph.reach([(de.id, l)], kinds=(DATA,), typed=False)}
-        hits = {k for k, nodes in reach_of.items() if (de.id, op["pl"]["l"]) in nodes}
+        hits = {k for k, nodes in reach_of.items() if (agg_body.id, op["pl"]["l"]) in nodes}
         srcf = {R[k] for k in hits}
         if srcf != {want}:
             bad.append((f, "is rebuilt from %s, expected from %s" % (sorted(x or "?" for x in srcf) or "nothing", want)))
